@@ -125,10 +125,11 @@ class CollV:
     """A collection known only through what holds for all of its elements: `base` is the access
     path (or tag) of the collection it was drawn from, `preds` a list of (param name, test expr)
     that every element satisfies (filter lambdas, comprehension conditions)."""
-    __slots__ = ("base", "preds", "typ", "kind")
+    __slots__ = ("base", "preds", "typ", "kind", "cpreds")
 
-    def __init__(self, base, preds, typ=None, kind="list"):
+    def __init__(self, base, preds, typ=None, kind="list", cpreds=()):
         self.base, self.preds, self.typ, self.kind = base, list(preds), typ, kind
+        self.cpreds = list(cpreds)   # canonical text of each predicate at the moment it was added (objects by access path)
 
     def __eq__(self, o):
         return isinstance(o, CollV) and self.base == o.base and self.preds == o.preds
@@ -338,6 +339,18 @@ class Read(Ev):
     def __repr__(self):
         c = "" if self.consts is None else f" cmp {sorted(map(str, self.consts))}"
         return f"read {self.cls}.{self.attr} of {self.recv!r}{c} @{self.loc}"
+
+
+class Pick(Ev):
+    """`coll[<const>]` on a collection known by its element facts: the element `result` was picked by position."""
+    kind = "pick"
+
+    def __init__(self, coll, index, result, node, func, stack):
+        super().__init__(node, func, stack)
+        self.coll, self.index, self.result = coll, index, result
+
+    def __repr__(self):
+        return f"pick {ast.unparse(self.node)[:40]} -> {self.result!r} @{self.loc}"
 
 
 class KwRead(Ev):
@@ -1014,7 +1027,7 @@ class Interp:
                 for a in ast.walk(s0):
                     if isinstance(a, ast.Assign) and any(isinstance(t, ast.Name) and t.id == n for t in a.targets):
                         seen = True
-                        if self._source_name(a.value) != n:
+                        if self._source_name(a.value) != n and not self._call_narrows(a.value, n, fr):
                             ok = False
                     elif isinstance(a, (ast.AugAssign, ast.For)) and any(isinstance(t, ast.Name) and t.id == n for t in ast.walk(a.target)):
                         ok = False
@@ -1030,6 +1043,39 @@ class Interp:
                             preds.append((pn, c))
                 keep[n] = CollV(v.base, preds, v.typ, v.kind)
         return keep
+
+    def _call_narrows(self, e, name, fr, depth=0):
+        """`name = helper(..., name, ...)` where every in-package callee returns, on all its paths, a value derived from the
+        parameter that receives `name` by order-preserving narrowing (and only re-binds that parameter the same way)."""
+        if not isinstance(e, ast.Call) or depth > 3:
+            return False
+        callees, resolved = fr.ft.resolve_call(e)
+        if not callees or not resolved:
+            return False
+        for c in callees:
+            params = [p for p in c.params if not (p == "self" and c.cls)] if isinstance(e.func, (ast.Attribute, ast.Name)) and c.cls and c.params[:1] == ["self"] else list(c.params)
+            pos = None
+            for i, a in enumerate(e.args):
+                if isinstance(a, ast.Name) and a.id == name and i < len(params):
+                    pos = params[i]
+            for kw in e.keywords:
+                if kw.arg and isinstance(kw.value, ast.Name) and kw.value.id == name:
+                    pos = kw.arg
+            if pos is None:
+                return False
+            cft = self.types.ftypes(c)
+            rets = [r for r in ast.walk(c.node) if isinstance(r, ast.Return) and cft.owner_func(r) is c.node]
+            if not rets:
+                return False
+            for r in rets:
+                if r.value is None or self._source_name(r.value) != pos:
+                    return False
+            for a in ast.walk(c.node):
+                if isinstance(a, ast.Assign) and any(isinstance(t, ast.Name) and t.id == pos for t in a.targets) and cft.owner_func(a) is c.node:
+                    cfr = Frame(c, cft, ())
+                    if self._source_name(a.value) != pos and not self._call_narrows(a.value, pos, cfr, depth + 1):
+                        return False
+        return True
 
     def havoc(self, st, names, attrs, fr):
         for n in names:
@@ -1825,6 +1871,8 @@ class Interp:
                             self.assume_elem(base, var, st, fr)
                         finally:
                             self._quiet -= 1
+                        if not self._quiet:
+                            st.trace.append(Pick(base, int(idx.const_value()), var, e, fr.func, fr.stack))
                         return var
             if isinstance(e.slice, ast.Slice):
                 sl = e.slice
@@ -1883,7 +1931,10 @@ class Interp:
                 typ = coll.typ if isinstance(coll, (CollV, Unk)) else None
                 for c in g.ifs:
                     preds.append((g.target.id, c))
-                return CollV(key, preds, typ or fr.ft.type_of(g.iter))
+                cp = list(coll.cpreds) if isinstance(coll, CollV) else []
+                for c in g.ifs:
+                    cp.append(self.canon(c, st, fr))
+                return CollV(key, preds, typ or fr.ft.type_of(g.iter), cpreds=cp)
         elif e.generators and isinstance(e.elt, ast.Name) and isinstance(e.generators[-1].target, ast.Name) \
                 and e.elt.id == e.generators[-1].target.id and not isinstance(e, ast.GeneratorExp):
             # flattening comprehension `[x for outer in A for x in outer.B if p(x)]`: the elements are known only through
@@ -2108,12 +2159,12 @@ class Interp:
             revn = next((kw.value for kw in e.keywords if kw.arg == "reverse"), None)
             revv = self.eval(revn, st, fr) if revn is not None else FALSE
             if isinstance(base, CollV):
-                return CollV(base.base, base.preds, base.typ, "list")  # element facts survive a permutation
+                return CollV(base.base, base.preds, base.typ, "list", cpreds=base.cpreds)  # element facts survive a permutation
             return SortedV(base, keyv, revv, e)
         if fname in ("list", "tuple", "sorted", "set") and len(e.args) >= 1:
             inner = self._eval_iterable(e.args[0], st, fr)
             if isinstance(inner, CollV):
-                return CollV(inner.base, inner.preds, inner.typ, "set" if fname == "set" else "list")
+                return CollV(inner.base, inner.preds, inner.typ, "set" if fname == "set" else "list", cpreds=inner.cpreds)
             if isinstance(inner, ListV) and fname in ("list", "tuple"):
                 return ListV(inner.items, True, fname)
             if isinstance(inner, ListV) and fname == "sorted" and not any(kw.arg == "key" for kw in e.keywords) and \
@@ -2248,7 +2299,8 @@ class Interp:
                     base = self.path_of(src, ast.unparse(e.args[1]))
                     preds = list(src.preds) if isinstance(src, CollV) else []
                     typ = src.typ if isinstance(src, (CollV, Unk)) else None
-                    return CollV(base, preds + [(lam.args.args[0].arg, lam.body)], typ or fr.ft.type_of(e.args[1]))
+                    cp = (list(src.cpreds) if isinstance(src, CollV) else []) + [self.canon(lam.body, st, fr)]
+                    return CollV(base, preds + [(lam.args.args[0].arg, lam.body)], typ or fr.ft.type_of(e.args[1]), cpreds=cp)
                 return Unk(ast.unparse(e))
         if isinstance(e, (ast.ListComp, ast.GeneratorExp, ast.SetComp)):
             return self._eval_comp(e, st, fr)
@@ -2330,8 +2382,8 @@ class Interp:
                 if isinstance(v, (Unk, Poly)) and isinstance(n, ast.Name):
                     # a local that merely names an attribute of an abstract object (`task_name = self.name`)
                     tag = v.tag if isinstance(v, Unk) else (repr(v) if len(v.terms) == 1 and v.is_linear() and not v.is_const() else "")
-                    root, dot, rest = tag.partition(".")
-                    if dot and rest.isidentifier() and any(k[0] == root for k in st.heap) or (dot and rest.isidentifier() and any(isinstance(x, Obj) and x.name == root for x in st.env.values())):
+                    root, dot, rest = tag.rpartition(".")
+                    if dot and rest.isidentifier() and (any(k[0] == root for k in st.heap) or any(isinstance(x, Obj) and x.name == root for x in st.env.values())):
                         return "<" + root + ">." + rest
                 return n.id
             if isinstance(n, ast.Call):
